@@ -17,6 +17,41 @@ def fld(p):
     return None
 
 
+def _object_missing(f, desc_stores, src_fields):
+    """an instruction after which the writer's object (outfile / uncmp) is missing although a descriptor store is reachable"""
+    def reach(b0):
+        seen, work = set(), [b0]
+        while work:
+            b = work.pop()
+            if b in seen:
+                continue
+            seen.add(b)
+            work.extend(b.succs)
+        return seen
+
+    targets = {s.bb for s in desc_stores}
+    for i in f.insts():
+        if i.op == "store" and fld(i.ops[1]) in src_fields and strip_casts(i.ops[0]).is_const and strip_casts(i.ops[0]).is_null:
+            if strip_casts(i.ops[1]).field()[0].startswith("struct.sqfs_writer_t") and \
+                    (reach(i.bb) - {i.bb} | ({i.bb} if any(s.bb is i.bb and s.pos > i.pos for s in desc_stores) else set())) & targets:
+                return i
+        if i.op != "call":
+            continue
+        outs = [a for a in i.ops if fld(a) in src_fields and strip_casts(a).field()[0].startswith("struct.sqfs_writer_t")]
+        if not outs:
+            continue
+        for u in f.uses.get(i, []):
+            if u.op != "icmp" or not (u.ops[1].is_const and u.ops[1].is_int and u.ops[1].sval == 0):
+                continue
+            for br in f.uses.get(u, []):
+                if br.op != "br" or len(br.x["succ"]) != 2:
+                    continue
+                fail = {"ne": br.x["succ"][0], "eq": br.x["succ"][1], "slt": br.x["succ"][0], "sge": br.x["succ"][1]}.get(u.pred)
+                if fail is not None and reach(fail) & targets:
+                    return br
+    return None
+
+
 def rule_a_tools_enable(chk, prog):
     f = prog.need_fn("sqfs_writer_init")
     chk.analysed(f)
@@ -44,6 +79,15 @@ def rule_a_tools_enable(chk, prog):
             if not (srcs & {"outfile", "uncmp"}):
                 ok = False
         inst = "blkdesc.%s" % want
+        # ... and the object is there: where it could not be made, the descriptor is not filled in at all
+        if ok:
+            src_fields = {n for s in st for (_s, n) in fields_in_slice(s.ops[0])} & {"outfile", "uncmp"}
+            why = _object_missing(f, st, src_fields)
+            if why is not None:
+                chk.violation("K13-compare", inst, why, "the block processor descriptor's '%s' is filled in on a path on which the "
+                              "object could not be created (or was set to NULL): without it the block processor keeps no copies "
+                              "to compare with and takes equal size+checksum for equal data" % want)
+                continue
         if ok:
             chk.ok("K13-compare", inst, st[0], "the block processor is given the output file / uncompressor it needs to compare fragments")
         else:
@@ -491,6 +535,26 @@ def rule_f_fragcache(chk, prog):
                         for x in backward_slice(c.ops[k], phi_control=False)):
                 writes.append(c)
         wb = {w.bb for w in writes}
+        # the tag names a whole block: what fills the payload fills it from its first byte
+        for w in writes:
+            sc = slot_call(w)
+            k = 2 if sc == ("struct.sqfs_file_t", "read_at") else 3 if sc == ("struct.sqfs_compressor_t", "do_block") else 0
+            d = strip_casts(w.ops[k])
+            off = None
+            while d.is_inst and d.op == "getelementptr":
+                idx = [el[1] for el in d.x["gep"] if el[0] in ("*", "[]")]
+                if any(not (v.is_const and v.is_int and v.sval == 0) for v in idx):
+                    off = d
+                    break
+                if d.field() and d.field()[1] == "data":
+                    break
+                d = strip_casts(d.ops[0])
+            if off is not None:
+                n += 1
+                chk.violation("K9-fragcache", "%s:cached_frag_blk fill@%d" % (f.name, w.line), w,
+                              "the cached fragment block is filled from an offset inside its payload while its index names the "
+                              "whole block: the rest of the payload keeps the bytes of the block that was cached before, and "
+                              "the next lookup of another chunk of this block is compared with them")
         for t in tags:
             n += 1
             # a path from entry to the tag store avoiding every payload write?
